@@ -167,7 +167,7 @@ func checkTagAccounting(d model.Doc, l model.Layout) (Outcome, error) {
 	}
 	stats := service.AggregateTotalsByTags(records...)
 	seen := map[tagKey]bool{}
-	prev := ""
+	prev, unordered := "", false
 	for i, s := range stats {
 		k := tagKey{s.Tag.Name(), s.Tag.Value()}
 		if seen[k] {
@@ -180,11 +180,15 @@ func checkTagAccounting(d model.Doc, l model.Layout) (Outcome, error) {
 		if s.Total.InMinutes() != total[k] || s.Count != count[k] {
 			return out, fmt.Errorf("tag %s: total %d min in %d entries, reference %d min in %d entries\ntext: %s", s.Tag.ToString(), s.Total.InMinutes(), s.Count, total[k], count[k], quoteShort(text))
 		}
+		// the order of the rows is presentation: the property does not constrain it
 		key := k.name + "=" + k.value
 		if i > 0 && key < prev {
-			return out, fmt.Errorf("tag statistics are not ordered by name: %q after %q", key, prev)
+			unordered = true
 		}
 		prev = key
+	}
+	if unordered {
+		out.Label("rows-not-in-byte-order")
 	}
 	if len(seen) != len(total) {
 		var missing []string
@@ -202,26 +206,29 @@ func checkTagAccounting(d model.Doc, l model.Layout) (Outcome, error) {
 	if res.Err != nil {
 		return out, fmt.Errorf("klog tags failed: %s", res.Err.Error())
 	}
-	rows := 0
-	if res.Out != "" {
-		rows = len(strings.Split(strings.TrimSuffix(res.Out, "\n"), "\n"))
-	}
-	if rows != len(total) {
-		return out, fmt.Errorf("klog tags prints %d rows for %d tags and tag values\ntext: %s\noutput:\n%s", rows, len(total), quoteShort(text), res.Out)
-	}
-	// rows whose tag and value contain no blanks can be read back exactly
+	// Reading of the text output: the layout (row order, header or footer lines, how a value row
+	// refers to its tag) is presentation, so this is tolerant: every row that can be read as
+	// `#name total (count)`, `#name=value total (count)` or, below a name row, `value total (count)`
+	// must state the reference numbers, and when rows can be read at all, no tag may be missing.
+	found := map[tagKey]bool{}
+	readable := 0
 	if res.Out != "" {
 		curName := ""
 		for _, row := range strings.Split(strings.TrimSuffix(res.Out, "\n"), "\n") {
 			f := strings.Fields(row)
-			if len(f) != 3 {
-				curName = ""
-				continue // value with blanks: not parseable, skipped
+			if len(f) != 3 || !strings.HasPrefix(f[2], "(") || !strings.HasSuffix(f[2], ")") {
+				if strings.HasPrefix(strings.TrimSpace(row), "#") {
+					curName = ""
+				}
+				continue // value with blanks or another layout: not readable, skipped
 			}
 			var k tagKey
-			if strings.HasPrefix(row, "#") {
-				curName = strings.TrimPrefix(f[0], "#")
-				k = tagKey{curName, ""}
+			if strings.HasPrefix(f[0], "#") {
+				name, value, _ := strings.Cut(strings.TrimPrefix(f[0], "#"), "=")
+				if value == "" {
+					curName = name
+				}
+				k = tagKey{name, value}
 			} else if curName != "" {
 				k = tagKey{curName, f[0]}
 			} else {
@@ -231,10 +238,22 @@ func checkTagAccounting(d model.Doc, l model.Layout) (Outcome, error) {
 			if !ok {
 				continue // e.g. a value that itself looks like another token; exact check is at service level
 			}
+			readable++
+			found[k] = true
 			if f[1] != fmt.Sprint(wantT) || f[2] != fmt.Sprintf("(%d)", count[k]) {
 				return out, fmt.Errorf("klog tags row %q: reference total %d in %d entries\ntext: %s", row, wantT, count[k], quoteShort(text))
 			}
 		}
+	}
+	if readable > 0 {
+		for k := range total {
+			if !found[k] && !strings.ContainsAny(k.value, " \t\"'=#") && k.value == strings.TrimSpace(k.value) {
+				return out, fmt.Errorf("klog tags does not list #%s=%s (reference total %d in %d entries)\ntext: %s\noutput:\n%s", k.name, k.value, total[k], count[k], quoteShort(text), res.Out)
+			}
+		}
+		out.Label("tags-output:read")
+	} else if len(total) > 0 {
+		out.Label("tags-output:not-readable")
 	}
 	redundant := false
 	for k, n := range count {
